@@ -82,6 +82,16 @@ def leak_sweep():
     cases += [("w%d" % sw, la % ("FooA", "FooA") + lm % ("FooB", "FooB", "FooB")),
               ("w%d.o0" % sw, "//// module a.pn\n%s//// module main.pn\nimport \"a.pn\";\n%s" % (la % ("Foo", "Foo"), lm % ("Foo", "Foo", "Foo"))),
               ("w%d.o1" % sw, "//// module main.pn\nimport \"a.pn\";\n%s//// module a.pn\n%s" % (lm % ("Foo", "Foo", "Foo"), la % ("Foo", "Foo")))]; sw += 1
+    # private constant ARRAYS of one name (they are emitted as globals; scalars are folded) in two modules
+    ta = "const TABLE: [3]i32 = [1, 2, 3];\npub fn a_get(i: usize) -> i32\n{\n\treturn: TABLE[i]\n}\n"
+    tb = "const TABLE: [3]i32 = [10, 20, 30];\npub fn b_get(i: usize) -> i32\n{\n\treturn: TABLE[i]\n}\n"
+    tm = "fn main() -> u8\n{\n\tprint!(a_get(1), \" \", b_get(1), \"\\n\");\n\treturn: 0\n}\n"
+    single = ta.replace("TABLE", "TABLE_A") + tb.replace("TABLE", "TABLE_B") + tm
+    imp = "import \"a.pn\";\nimport \"b.pn\";\n"
+    cases += [("w%d" % sw, single),
+              ("w%d.o0" % sw, "//// module a.pn\n%s//// module b.pn\n%s//// module main.pn\n%s%s" % (ta, tb, imp, tm)),
+              ("w%d.o1" % sw, "//// module b.pn\n%s//// module a.pn\n%s//// module main.pn\n%s%s" % (tb, ta, imp, tm)),
+              ("w%d.o2" % sw, "//// module main.pn\n%s%s//// module b.pn\n%s//// module a.pn\n%s" % (imp, tm, tb, ta))]; sw += 1
     return cases
 
 
